@@ -47,6 +47,7 @@ int main(int argc, char **argv) {
     std::set<uint64_t> ntKeys; std::map<std::string, long long> tags, known, counters;
     std::vector<std::string> samples, ntSamples;
     bool failed = false; std::string failMsg;
+    long long shrinkRuns = 0; const long long shrinkBudget = 4000;
     bool ok = rc::check(id, [&] {
         Case c = *gen;
         c.prop = id;
@@ -57,6 +58,7 @@ int main(int argc, char **argv) {
             return;
         }
         if (!failed) writeFileText(curPath, text);
+        if (failed && ++shrinkRuns > shrinkBudget) return;      // bound the shrinking effort: further candidates "pass"
         CaseResult r = p->run(c, ctx);
         if (!failed) {
             if (r.v == CaseResult::DISCARD) { ++discards; tags["discard:" + r.msg]++; }
@@ -74,6 +76,7 @@ int main(int argc, char **argv) {
         if (r.v == CaseResult::DISCARD) RC_DISCARD(r.msg);
         if (r.v == CaseResult::FAIL) {
             if (!r.knownFinding.empty() && ctx.isOpen(r.knownFinding)) { if (!failed) known[r.knownFinding]++; return; }
+            if (!failed) fprintf(stderr, "FIRST-FAIL %s: %s\n", id.c_str(), r.msg.substr(0, 500).c_str());
             failed = true; failMsg = r.msg;
             { std::string m1 = r.msg; for (char &ch : m1) if (ch == '\n' || ch == '\r') ch = ' '; writeFileText(failPath, text + "# " + m1 + "\n"); }
             RC_FAIL(r.msg);
